@@ -77,6 +77,8 @@ def run(ctx):
         ctx.guard(wiring.builders, ctx, cfg, fs, 'B.builders', r'^(Parser::(many|some|optional|collect|count|last|fallback|fallback_with|guard|parse|map|hide)|structs::\w+::<.*>::catch|pure|pure_with|fail|params::NamedArg::(switch|flag|req_flag)|params::build_flag_parser)$')
         ctx.guard(loop_conditions, ctx, cfg, fs)
         ctx.guard(count_counts, ctx, cfg, fs)
+        import c02
+        ctx.guard(c02.conversion_arms, ctx, cfg, fs, 'K6.text')
         ctx.guard(len_threaded, ctx, cfg, fs)
         ctx.guard(k6, ctx, cfg, fs)
 
